@@ -1,0 +1,27 @@
+//go:build verif
+
+package hydra
+
+import (
+	"sync"
+
+	"github.com/hydraide/hydraide/app/name"
+)
+
+// VerifEventSubscriberCount returns the number of event callbacks currently registered for the
+// swamp (verification harness only: lets the C19 harness wait until a SubscribeToEvents call
+// has registered, or an unsubscribe has taken effect, without sleeping).
+func VerifEventSubscriberCount(h Hydra, swampName name.Name) int {
+	hh, ok := h.(*hydra)
+	if !ok {
+		return -1
+	}
+	n := 0
+	if subscribers, ok := hh.eventSubscribers.Load(swampName.Get()); ok {
+		subscribers.(*sync.Map).Range(func(_, _ interface{}) bool {
+			n++
+			return true
+		})
+	}
+	return n
+}
